@@ -16,7 +16,7 @@ from ..flow import PathEnum, cond_facts
 from ..fold import ASCII, Rx, charset, sre_c, try_fold
 from ..model import AnalysisError, Func, Repo, dotted, is_name, norm, walk_shallow
 from ..report import Ledger
-from ..sym import B, Const, Lin, State, Str, Sym, SymExec, Tup, as_lin, cmp_lin, NotNumeric
+from ..sym import eq0, B, Const, Lin, State, Str, Sym, SymExec, Tup, as_lin, cmp_lin, NotNumeric
 from ..util import contains, names_in, paths
 
 PROP = "C04"
@@ -431,8 +431,8 @@ def _r4(repo, L, idx, proc: Func, roles):
             if not (re1 == e_ and rs1 == Lin.atom("RS") and not pushes):
                 ok, why = False, f"touching runs: open run becomes [{rs1}, {re1}) with {len(pushes)} pushes; expected the open run extended to the new end, nothing pushed"
         else:
-            has_open = any(f == B("not", B("eq", Lin.atom("RE"))) or repr(f) == repr(B("not", B("eq", Lin.atom("RE")))) for f in r.pc)
-            no_open = any(f == B("eq", Lin.atom("RE")) for f in r.pc)
+            has_open = any(f == B("not", eq0(Lin.atom("RE"))) or repr(f) == repr(B("not", eq0(Lin.atom("RE")))) for f in r.pc)
+            no_open = any(f == eq0(Lin.atom("RE")) for f in r.pc)
             seen.add("push" if has_open else "first" if no_open else "?")
             if not (re1 == e_ and rs1 == s_):
                 ok, why = False, f"new run opens as [{rs1}, {re1}), expected [{s_}, {e_})"
